@@ -166,7 +166,7 @@ Proof.
   destruct pol.
   - (* success *)
     unfold authenticate. cbn [run_seq]. rewrite run_seq_bind, run_get_client. cbn [a_client].
-    change (a_client (s <| a_subject := sub |> <| a_granted := granted |>)) with (a_client s).
+    change (a_client (s <| a_subject := sub |> <| a_granted := granted |> <| a_granted_res := resources |>)) with (a_client s).
     destruct (lookup_client w st (a_client s)) as [c|] eqn:L; [|exact I].
     match goal with |- match snd (run_seq ?p st) with _ => _ end =>
       assert (H : nojwt_a c (snd (run_seq p st))) by (apply rets_ok_run; unfold save_a; crunchr; leaf) end.
